@@ -870,8 +870,10 @@ class Oracle(stateful.Stateful):
         if old_hash_value != new_hash_value:
             self._id_to_hash[trial.trial_id] = new_hash_value
             # Check before removing. If this is a retry run, the old value may
-            # have been removed already.
-            if old_hash_value in self._tried_so_far:
+            # have been removed already. When new entries are not tuned, the
+            # search space stays as it is and a later sample can produce the
+            # old values again, so their hash has to stay.
+            if self.tune_new_entries and old_hash_value in self._tried_so_far:
                 self._tried_so_far.remove(old_hash_value)
 
 
